@@ -6,6 +6,7 @@ toolchain go1.23.7
 
 require (
 	github.com/charmbracelet/bubbletea v0.0.0
+	github.com/charmbracelet/x/term v0.2.1
 	golang.org/x/sys v0.32.0
 )
 
@@ -15,7 +16,6 @@ require (
 	github.com/charmbracelet/lipgloss v1.1.0 // indirect
 	github.com/charmbracelet/x/ansi v0.8.0 // indirect
 	github.com/charmbracelet/x/cellbuf v0.0.13-0.20250311204145-2c3ea96c31dd // indirect
-	github.com/charmbracelet/x/term v0.2.1 // indirect
 	github.com/lucasb-eyer/go-colorful v1.2.0 // indirect
 	github.com/mattn/go-isatty v0.0.20 // indirect
 	github.com/mattn/go-runewidth v0.0.16 // indirect
